@@ -7,7 +7,7 @@
                        b.Unlock(); ...; b.Lock(); ...; b.Unlock(); a.Unlock()" is written as it is)
      NUnlock md m      mu.Unlock() / mu.RUnlock()
      NOnce o           o.Do(init): the first call performs the writes of [obody o], atomically for its callers
-   A sync.RWMutex admits any number of Shared holders or one Excl holder (not re-entrant, as in Go).
+   A sync.RWMutex allows any number of Shared holders or one Excl holder (not re-entrant, as in Go).
    Each thread state carries the list of locks it holds; the machine executes one item per step of the schedule.
 
    A REGION is a maximal run of consecutive accesses of a thread (no lock operation or Once call in between: the
